@@ -26,12 +26,14 @@ from lib import build, runner, mvtext as mv
 from lib import ref_cbor, ref_msgpack, ref_ubjson, ref_bson
 
 PROP = "C07"
-FLAGS = ["-O1", "-fsanitize=address,undefined", "-fno-sanitize-recover=undefined", "-fno-sanitize=nonnull-attribute"]
+FLAGS = ["-O1", "-fsanitize=address,undefined", "-fno-sanitize-recover=undefined", "-fno-sanitize=nonnull-attribute",
+         "-fno-access-control", "-DVF_PRIV"]
 ENV = {"ASAN_OPTIONS": "detect_leaks=1:abort_on_error=0:exitcode=77:allocator_may_return_null=1",
        "UBSAN_OPTIONS": "print_stacktrace=0:halt_on_error=1:exitcode=78", "LC_ALL": "C"}
 REF = {"cbor": ref_cbor, "msgpack": ref_msgpack, "ubjson": ref_ubjson, "bson": ref_bson}
 FORMATS = ["cbor", "msgpack", "ubjson", "bson"]
 BATCH = 20000
+BATCH_BYTES = 4 << 20
 ENC_LIMIT = 24
 SUBST_LIMIT = {"cbor": 10, "msgpack": 10, "ubjson": 10, "bson": 16}
 NSLICE = 16          # hash slices per format for the mutation stream
@@ -190,6 +192,7 @@ def value_set(fmt, tier):
         scal += [('bignum', n, 0) for n in bigs] + [('bignum', -1 - n, 0) for n in bigs]
         exps = [-20, -3, -1, 0, 1, 3, 20] if not q else [-3, 0, 2]
         mants = [0, 1, -1, 27315, -27315, 1 << 63, (1 << 64) - 1, -(1 << 64), 1 << 64, -(1 << 64) - 1, 10 ** 25]
+        scal += [('decfrac', (-1, 1 << 64), 0), ('bigfloat', (-1, 1 << 64), 0)]      # every tag head width on the bignum mantissa
         for e in exps:
             for m in mants:
                 scal.append(('decfrac', (e, m), 0))
@@ -232,7 +235,7 @@ def value_set(fmt, tier):
     for v in scal:
         k = v[0]
         if k in ('decfrac', 'bigfloat'):
-            add(v, "full" if v[1] in ((-3, 27315), (0, -1)) and not q else "reduced")
+            add(v, "full" if (v[1] in ((-3, 27315), (0, -1)) and not q) or v[1] == (-1, 1 << 64) else "reduced")
         elif k == 'typed':
             add(v, "reduced" if q else "full")
         elif k == 'bignum' or (k in ('str', 'bin') and len(v[1] if k == 'str' else v[1][0]) >= 2):
@@ -265,27 +268,27 @@ def value_set(fmt, tier):
 
 
 def long_items(fmt, tier):
-    """(value, mode) for group (C): lengths and counts 24..65536."""
+    """Values for group (C): lengths and counts 24..65536 (every length head width is exercised at each)."""
+    q = tier == "quick"
     out = []
+    lens = [24, 31, 32, 255, 256] + ([65535, 65536] if not q else [65536])
     if fmt == "bson":
-        for n in (24, 255, 256, 65535, 65536):
+        for n in lens:
             out.append(O((b"a", S(text_of(n)))))
             out.append(O((b"a", B(bytes_of(n), mv.TAG_EXT, 0))))
-        for n in (24, 255, 256, 1000):
+        for n in (24, 255, 256) + (() if q else (1000,)):
             out.append(O((b"a", A(*[I(i) for i in range(n)]))))
             out.append(O(*[(str(i).encode(), NULL) for i in range(n)]))
         return out
-    for n in LONG_LENS:
-        for t in (b"", "€".encode()):
-            out.append(S(text_of(n, t)))
+    for n in lens:
+        out.append(S(text_of(n, b"" if n % 2 else "\u20ac".encode())))
         if fmt in ("cbor", "msgpack"):
             out.append(B(bytes_of(n)))
-        out.append(A(*[I(i % 24) for i in range(n)]))
-        out.append(A(*[NULL for i in range(n)]))
-    for n in (15, 16, 23, 24, 255, 256, 65535, 65536):
+        out.append(A(*[(I(i % 24) if n % 2 else NULL) for i in range(n)]))
+    for n in (15, 16, 23, 24, 255, 256) + (() if q else (65535, 65536)):
         out.append(O(*[(str(i).encode(), I(i % 24)) for i in range(n)]))
     if fmt == "msgpack":
-        for n in (24, 255, 256, 65535, 65536):
+        for n in (24, 255, 256, 65536):
             out.append(B(bytes_of(n), mv.TAG_EXT, 7))
     if fmt == "cbor":
         out.append(('bignum', 10 ** 80, 0))
@@ -433,10 +436,11 @@ def stream_c(fmt, tier):
     """Group (C): long items, every head width; truncations at offsets <= 12, at the middle and at n-1."""
     ref = REF[fmt]
     for v in long_items(fmt, tier):
-        for e, level in item_encodings(fmt, v, "reduced", "min", 1 << 30):
+        for e, level in item_encodings(fmt, v, "reduced", "one", 1 << 30):
             yield e
             n = len(e)
-            for i in sorted(set(list(range(0, min(n, 13))) + [n // 2, n - 2, n - 1])):
+            cuts = list(range(0, min(n, 13))) + [n - 1] + ([n // 2, n - 2] if n < 5000 else [])
+            for i in sorted(set(cuts)):
                 if 0 <= i < n:
                     yield e[:i]
             marks = []
@@ -512,13 +516,19 @@ def stream_a(first_bytes, L):
 # =============================================================================================
 # oracle
 
-def judge(fmt, data, line):
+NOT_EXECUTED = ("count-beyond-reference-limit",)    # abstentions that are not even run (16 million payload-free elements)
+
+
+def judge(fmt, data, line, ref=None):
     """Returns (outcome class, violation detail or None, nontrivial?)."""
-    ref = REF[fmt].decode(data)
+    if ref is None:
+        ref = REF[fmt].decode(data)
     kind = line[:3]
     rest = line[3:] if kind == "OK " else line[4:]
     if ref[0] == "OK":
         rv = ref[1]
+        if kind == "OK " and " !half:" in rest:
+            return "OK/half-as-double", "half float converts to the wrong double: %s" % rest[-60:], True
         if kind == "OK ":
             try:
                 ok = rest == mv.render(rv)
@@ -545,10 +555,13 @@ def judge(fmt, data, line):
 
 
 def _beyond_64(v):
-    """True if the value contains an integer that neither int64 nor uint64 can hold (an error is
-    an acceptable answer there, a wrong number is not)."""
+    """True if the value contains an integer (or a decimal fraction / bigfloat mantissa given as a plain
+    integer) that neither int64 nor uint64 can hold: an error is an acceptable answer there, a wrong
+    number is not."""
     if v[0] == 'int':
         return not (mv.INT64_MIN <= v[1] <= mv.UINT64_MAX)
+    if v[0] == 'num':
+        return len(v) > 3 and v[3] == 'beyond64'
     if v[0] == 'arr':
         return any(_beyond_64(e) for e in v[1])
     if v[0] == 'obj':
@@ -640,14 +653,34 @@ class Acc(object):
 def process(binary, fmt, it, acc, group):
     """Runs every input of iterator `it` through jsoncons and the oracle."""
     while True:
-        batch = list(itertools.islice(it, BATCH))
+        batch = []
+        size = 0
+        for x in it:
+            batch.append(x)
+            size += len(x)
+            if len(batch) >= BATCH or size >= BATCH_BYTES:
+                break
         if not batch:
             break
+        decode = REF[fmt].decode
+        refs = []
+        run = []
+        for x in batch:
+            r = decode(x)
+            if r[0] == "UNSPEC" and r[1] in NOT_EXECUTED:
+                acc.count("abstained_not_executed")
+                acc.sets.add(fmt + ":UNSPEC:" + r[1] + "/not-executed")
+                continue
+            refs.append(r)
+            run.append(x)
+        batch = run
+        if not batch:
+            continue
         answers, err = run_exec(binary, fmt, batch)
         if err:
             acc.errors.append(err)
             return
-        for data, line in zip(batch, answers):
+        for data, line, ref in zip(batch, answers, refs):
             acc.count("evaluations")
             acc.count("n_" + fmt + "_" + group)
             if line.startswith("DIE") or line == "HNG":
@@ -662,7 +695,7 @@ def process(binary, fmt, it, acc, group):
                         acc.viol[sig] = "decoder %s: %s" % ("did not terminate" if line == "HNG" else "crashed / sanitizer report", line[4:])
                     acc.sets.add(fmt + ":" + ("HANG" if line == "HNG" else "SAN"))
                     continue
-            cls, detail, nontrivial = judge(fmt, data, line)
+            cls, detail, nontrivial = judge(fmt, data, line, ref)
             acc.sets.add(fmt + ":" + cls)
             if cls.startswith("UNSPEC"):
                 acc.count("abstained")
